@@ -23,8 +23,8 @@ OWN_MEANING = set('\\`[]<>&!~#*_')
 LINE_ENDS = set('\n\r\x0b\x0c\x1c\x1d\x1e\x85\u2028\u2029')
 
 SPACES = {
-    'quick': dict(a5=8, bin=14, uni=5, sweep='classes'),
-    'thorough': dict(a5=10, bin=14, uni=6, sweep='all'),
+    'quick': dict(a5=8, bin=14, uni=5, a3=11, sweep='classes'),
+    'thorough': dict(a5=10, bin=14, uni=6, a3=13, sweep='all'),
 }
 
 
@@ -42,6 +42,9 @@ def jobs(tier):
     js += [('star',) + j[1:] for j in core.word_jobs('star', ['a', '*'], b['bin'], 4)]
     js += [('under',) + j[1:] for j in core.word_jobs('under', ['a', '_'], b['bin'], 4)]
     js += [('uni',) + j[1:] for j in core.word_jobs('uni', AU, b['uni'], 2)]
+    js += [('a3s',) + j[1:] for j in core.word_jobs('a3s', ['a', ' ', '*'], b['a3'], 4)]
+    js += [('a3u',) + j[1:] for j in core.word_jobs('a3u', ['a', ' ', '_'], b['a3'], 4)]
+    js.append(('depth', None, 0))
     step = 0x110000 // 64
     for lo in range(0, 0x110000, step):
         js.append(('sweep', (lo, min(lo + step, 0x110000)), b['sweep']))
@@ -121,8 +124,23 @@ def sweep_points(lo, hi, mode):
 def run_job(job):
     r = core.Result()
     kind = job[0]
-    if kind in ('a5', 'star', 'under', 'uni'):
-        alphabet = {'a5': A5, 'star': ['a', '*'], 'under': ['a', '_'], 'uni': AU}[kind]
+    if kind == 'depth':
+        # nesting depth 1..60 (a guard that stops nesting at some level would leave literal delimiters behind)
+        for n in range(1, 61):
+            for text in ('*' * n + 'a' + '*' * n, '_' * n + 'a' + '_' * n, '*' * (2 * n) + 'a' + '*' * (2 * n),
+                         ' '.join('*_'[i % 2] + 'x' for i in range(n)) + ' w ' + ' '.join('x' + '*_'[i % 2] for i in reversed(range(n))),
+                         '*' * n + 'a' + '*' * (n + 1), '*' * (n + 1) + 'a' + '*' * n):
+                r.states += 1
+                r.transitions += 1
+                r.validated += 1
+                f = evaluate(text)
+                if f:
+                    r.fail(dict(text=text), f['sig'], f.get('detail', ''), expected=f.get('expected'), observed=f.get('observed'))
+        r.outcome('depth')
+        r.sample(dict(space='nesting depth 1..60'), 1)
+        return r
+    if kind in ('a5', 'star', 'under', 'uni', 'a3s', 'a3u'):
+        alphabet = {'a5': A5, 'star': ['a', '*'], 'under': ['a', '_'], 'uni': AU, 'a3s': ['a', ' ', '*'], 'a3u': ['a', ' ', '_']}[kind]
         run_words(r, alphabet, job[1], job[2], kind)
     elif kind == 'sweep':
         lo, hi = job[1]
